@@ -60,7 +60,7 @@ func init() {
 		NotDecided:  []string{"assembly of the 32-bit value from the parts, and serialisation", "the ends-in-a-number decision beyond its call structure"},
 		Assumptions: commonAssumptions})
 	describe(&PropertyDoc{ID: "C08",
-		Explanation: "Structural facts of IPv6 host acceptance.",
+		Explanation: "Structural facts of IPv6 host acceptance, and two abstract interpretations over finite partitions: the serializer per zero / non-zero pattern of the pieces, the parser's tail per end state.",
 		Decides:     []string{"exactly the first and last byte are removed from a host tested to start with '[' and end with ']' (FLOW-brackets)", "every validation error of the IPv6 parser is an aborting failure; the 13 failure points are the standard's (SM-failpoints)", "multiply-and-add accumulators of the address parser are bounded inside their loops: they cannot wrap (FLOW-accum)", "hex digit value functions are exact on 0-9, a-f, A-F (TAB-hexval)", "what the hex-piece accumulator can reach in its constant number of rounds fits the type it is narrowed to (FLOW-accum)", "the counter values for which the parser rejects - ninth piece, dotted part without two free pieces, '.' after zero digits, fifth dotted number or fewer than four, digit after a leading 0, dotted number above 255, fewer than eight pieces without '::' - are exactly the standard's (TAB-thresholds)", "the serializer uses a piece only to compare it with 0 and to format it in base 16; for each of the 256 zero/non-zero patterns its output has the standard's pieces, separators and '::' (TAB-ipv6ser, abstract interpretation)", "the part of the parser behind its last read of the text: too-few-pieces failure, placement of the pieces around '::', brackets — for each of the 45 (pieces read, place of '::') states, pieces as opaque tokens (TAB-ipv6place, abstract interpretation)"},
 		NotDecided:  []string{"the reading loop's per-character behaviour beyond its failure points", "that the hex text of a piece is minimal lower case (strconv's contract)"},
 		Assumptions: append([]string{"TAB-ipv6place: at the end of the reading loop the pieces from index pieceIdx on are still zero and 0 ≤ pieceIdx ≤ 8 (reviewed; the rule itself checks that compress is only ever set to the piece count or the one 'none' constant)"}, commonAssumptions...)})
